@@ -17,6 +17,7 @@ import OFV.Proofs.C03Normal
 import OFV.Proofs.C03Spec
 import OFV.Proofs.C03Fock
 import OFV.Proofs.C03Valid
+import OFV.Proofs.C03Chemist
 import Mathlib.Tactic.NormNum
 
 namespace OFV.C03
@@ -182,5 +183,30 @@ theorem normal_ordered_sound_melF (a : Op) (hv : ∀ e ∈ a, ∀ f ∈ e.1, f.2
   have hv' : ∀ e ∈ normalOrdered 0 .fermion a, ∀ f ∈ e.1, f.2 < 2 :=
     normalOrdered_valid 0 .fermion (fun f => f.2 < 2) (fun t ht => ht) a hv
   rw [← fock_evalOp_melF _ hv', ← fock_evalOp_melF _ hv, normal_ordered_sound_fock]
+
+/-! ## `chemist_ordered` and `reorder` only rewrite the operator -/
+
+/-- `chemist_ordered(op)` denotes the same operator, for every interpretation satisfying the CAR
+(uses: the normal-ordered intermediate is in normal order and inherits valid action codes, so the
+middle pair of each two-body term satisfies `x y + y x = δ`). -/
+theorem chemist_ordered_sound (I : Interp A)
+    (car_mixed : ∀ x l : Factor, x.2 ≠ 0 → l.2 = 0 →
+      I.g l * I.g x + I.g x * I.g l = if x.1 = l.1 then 1 else 0)
+    (car_same : ∀ x l : Factor, x.2 = l.2 → x.1 ≠ l.1 → I.g l * I.g x + I.g x * I.g l = 0)
+    (car_sq : ∀ x l : Factor, x.2 = l.2 → x.1 = l.1 → I.g l * I.g x = 0)
+    (a : Op) (hv : ∀ e ∈ a, ∀ f ∈ e.1, f.2 < 2) :
+    I.evalOp (chemistOrdered 0 a) = I.evalOp a :=
+  chemistOrdered_sound I car_mixed car_same car_sq a hv
+
+/-- … in particular in Fock space (the Spec). -/
+theorem chemist_ordered_sound_fock (a : Op) (hv : ∀ e ∈ a, ∀ f ∈ e.1, f.2 < 2) :
+    fockInterp.evalOp (chemistOrdered 0 a) = fockInterp.evalOp a :=
+  chemistOrdered_sound fockInterp fock_car_mixed fock_car_same fock_car_sq a hv
+
+/-- `reorder(op, order_function)` denotes the operator with relabelled modes
+`a_p ↦ a_{f(p)}` (FermionOperator; `m` is the list `[f(0), f(1), …]`; no condition on `f`). -/
+theorem reorder_sound (I : Interp A) (m : List Nat) (a : Op) :
+    I.evalOp (reorder 0 .fermion m a) = (I.relabel m).evalOp a :=
+  reorder_sound_gen I .fermion (fun _ => ⟨rfl, rfl⟩) m a
 
 end OFV.C03
